@@ -9,7 +9,8 @@ from harness.runner import Part, Violation, REPO
 
 PROPERTY = 'C11'
 LEVEL = 'exploration'
-RULE = ('inventory: all call sites of XML parsing functions (fromstring, XML, parse, iterparse, XMLParser, XMLPullParser, parseString, ParserCreate, make_parser, ...) in '
+RULE = ('fuzz: atheris / libFuzzer campaigns (16 shards x fixed run count, seeds derived from VERIF_SEED, corpus = the catalogue) over 10 entry points with the same oracle in the target; '
+        'inventory: all call sites of XML parsing functions (fromstring, XML, parse, iterparse, XMLParser, XMLPullParser, parseString, ParserCreate, make_parser, ...) in '
         'src/saml2_tophat/**/*.py, enumerated exhaustively by ast; sweep: entry points discovered by introspection (ELEMENT_FROM_STRING of every schema module, '
         'create_class_from_xml_string, extension_element_from_string, soap.*, pack.parse_soap_enveloped_saml, InMemoryMetaData.parse, MetadataStore.load, Entity.unravel, '
         'Saml2Client.parse_authn_request_response, Server.parse_authn_request / parse_logout_request, SecurityContext.correctly_signed_*) x payload families '
@@ -429,9 +430,56 @@ def run_other(case, tier='quick'):
     return '+'.join(sorted(labs)), True
 
 
+def fuzz_cases(tier, seed_base=1):
+    n = 16
+    runs = 30000 if tier == 'quick' else 3000000
+    return [{'shard': k, 'runs': runs} for k in range(n)]
+
+
+def run_fuzz(case):
+    """one libFuzzer campaign (atheris, coverage-guided) over a rotating set of entry points with the same oracle inside the target;
+    a crash input is a counterexample.  `data_b64` in the case replays a saved input."""
+    import subprocess, base64, glob, shutil
+    from harness.runner import VERIF
+    target = os.path.join(VERIF, 'tools', 'fuzz', 'c11_target.py')
+    env = dict(os.environ)
+    if case.get('data_b64'):
+        p = os.path.join(os.getcwd(), 'replay-input')
+        with open(p, 'wb') as f:
+            f.write(base64.b64decode(case['data_b64']))
+        r = subprocess.run(['/venv/bin/python', '-W', 'ignore', target, '--replay', p], capture_output=True, text=True, env=env)
+        if r.returncode != 0:
+            raise Violation('fuzz-oracle-failure', r.stdout.strip()[-300:])
+        return 'fuzz-replay', True
+    wd = os.path.join(os.getcwd(), 'fuzz-%d-%d' % (os.getpid(), case['shard']))
+    os.makedirs(wd, exist_ok=True)
+    seed = 1000 * int(os.environ.get('VERIF_SEED', '1') or '1') + case['shard'] + 1
+    r = subprocess.run(['/venv/bin/python', '-W', 'ignore', target, '-runs=%d' % case['runs'], '-seed=%d' % seed, '-max_len=6000', '-timeout=20', os.path.join(wd, 'corpus'),
+                        '-artifact_prefix=' + os.path.join(wd, 'crash-')], capture_output=True, text=True, env=env, cwd=wd)
+    crashes = sorted(glob.glob(os.path.join(wd, 'crash-*')))
+    stats = [l for l in r.stderr.splitlines() if 'DONE' in l or 'cov:' in l][-1:] or ['']
+    import re
+    m = re.search(r'cov: (\d+) ft: (\d+) corp: (\d+)', stats[0])
+    if m:
+        _COUNT['fuzz_cov_sum_over_shards'] = _COUNT.get('fuzz_cov_sum_over_shards', 0) + int(m.group(1))
+        _COUNT['fuzz_execs'] = _COUNT.get('fuzz_execs', 0) + case['runs']
+    if r.returncode != 0 and crashes:
+        with open(crashes[0], 'rb') as f:
+            data = f.read()
+        msg = [l for l in (r.stdout + r.stderr).splitlines() if 'OracleFailure' in l or 'ORACLE' in l][-1:] or [r.stderr[-300:]]
+        shutil.rmtree(wd, ignore_errors=True)
+        raise Violation('fuzz-oracle-failure', 'coverage-guided fuzzing found an input violating the oracle: %s' % msg[0][:300],
+                        detail={'replay_case': {'data_b64': base64.b64encode(data).decode(), 'shard': case['shard'], 'runs': 0}})
+    shutil.rmtree(wd, ignore_errors=True)
+    if r.returncode != 0:
+        raise ValueError('harness: fuzz target failed without a crash file: %s' % r.stderr[-400:])
+    return 'fuzz-campaign', True
+
+
 def parts(tier):
     return [
         Part('inventory', run_inventory, cases=inventory_cases, exhaustive=True),
         Part('schema-entry-points', lambda c: run_schema(c, tier), cases=sweep_cases_schema, exhaustive=True),
         Part('other-entry-points', lambda c: run_other(c, tier), cases=lambda: other_cases(tier), exhaustive=True),
+        Part('fuzz', run_fuzz, cases=lambda: fuzz_cases(tier)),
     ]
